@@ -665,10 +665,19 @@ func c10Programs(tier string) []hprog {
 	all := histCatalogue()
 	if tier == "thorough" {
 		// every byte of every cache write, on the whole catalogue plus the one-task programs of the small-scope family
-		return append(all, histAllSmall()[:15]...)
+		var out []hprog
+		for _, p := range append(all, histAllSmall()[:15]...) {
+			if len(p.Variants) == 0 {
+				out = append(out, p)
+			}
+		}
+		return out
 	}
 	var out []hprog
 	for _, p := range all {
+		if len(p.Variants) > 0 {
+			continue // spokfile edits are not part of the crash alphabet
+		}
 		if p.Name != "P7-glob-literal-overlap" && p.Name != "P8-three-tasks" { // the two largest graphs: thorough tier only
 			out = append(out, p)
 		}
